@@ -8,6 +8,22 @@
 //   s_complex kind A w           complex system through adapter::complex_matrix / complex_range, real AMG at Q
 //   t_mixed dim n                TEST (floating point, not a theorem): amg<builtin<float>> under cg<builtin<double>>
 //                                on the Poisson model problems reaches the default tolerance 1e-8 (true residual recomputed)
+//   s_block3 kind b wrap form A1 A2 f   the SOLVE-TIME-MATRIX overload operator()(A, rhs, x) of every wrapper: set up for A1,
+//                                solve with A2 (a separately assembled copy, a scaled / shifted / perturbed matrix on the same
+//                                pattern, a matrix with a different pattern) handed over as  form 0 scalar tuple, 1 separately
+//                                assembled scalar crs (rows listed backwards), 2 adapter::block_matrix, 3 block-valued crs.
+//                                kind 0: exact one-level preconditioner of A1, Krylov method run to convergence (<= min(n, 10)
+//                                iterations); kind 1: multilevel AMG of A1, <= 3 iterations.  Oracles, all in the ORIGINAL
+//                                SCALAR system of A2: reported residual == true residual; a converged solve satisfies
+//                                A2 x == f; the result equals that of the scalar solver with the same preconditioner (kind 0:
+//                                scalar backend with the exact preconditioner; kind 1: the block backend called directly
+//                                resp. the scalar backend for the hybrid backend); A2 == A1 gives the result of the
+//                                two-argument overload; CG with SPD A1, A2 converges within n iterations; A2 = c A1 in one.
+//   s_complex3 kind A1 A2 w      the same for the complex adapter: solve(complex_matrix(A2), w, z) after a setup for A1
+//   t_mixed3 b wrap m upd        TEST (floating point): single precision (block) preconditioner under a double precision
+//                                (block) solver, entries NOT representable in float, the double matrix is given at solve time
+//                                (operator()(A, rhs, x), as in the mixed-precision tutorials); upd 1: the solve-time matrix
+//                                has updated coefficients, upd 2: the same in double precision throughout (wrap 0).  Reported < 1e-8 and TRUE residual (exact, from the doubles) <= 1e-8.
 // Output line: `<iters> <reported residual>` | `exact` | `breakdown`; no Lean model is involved ("no_model").
 #include "gen_adapters.hpp"
 #include <amgcl/adapter/crs_tuple.hpp>
@@ -73,11 +89,175 @@ template <class Solver, class MatrixIn> static void run_solver(Result &r, const 
     }
 }
 
+// ---------------------------------------------------------------- the solve-time-matrix overload operator()(A, rhs, x)
+struct Sol { bool threw = false; size_t it = 0; Q res; std::vector<Q> x; };
+static bool same_sol(const Sol &a, const Sol &b) {
+    if (a.threw != b.threw) return false;
+    if (a.threw) return true;
+    if (a.it != b.it || a.res.v != b.res.v || a.x.size() != b.x.size()) return false;
+    for (size_t i = 0; i < a.x.size(); ++i) if (a.x[i].v != b.x[i].v) return false;
+    return true;
+}
+template <class Fn> static Sol guarded(long n, Fn fn) {
+    Sol s;
+    try { NVec X(n); for (long i = 0; i < n; ++i) X[i] = Q(0); std::tie(s.it, s.res) = fn(X); s.x = to_std(X); }
+    catch (const std::runtime_error &e) { if (getenv("VH_DEBUG")) std::cerr << "exception: " << e.what() << "\n"; s.threw = true; }
+    return s;
+}
+static bool same_matrix(const Mat &A, const Mat &B) { return A.n == B.n && A.m == B.m && A.ptr == B.ptr && A.col == B.col && dense(A) == dense(B); }
+static bool same_pattern(const Mat &A, const Mat &B) { return A.n == B.n && A.m == B.m && A.ptr == B.ptr && A.col == B.col; }
+// A2 == c * A1 with one c != 0, 1 on a common pattern
+static bool is_scaled(const Mat &A1, const Mat &A2) {
+    if (!same_pattern(A1, A2) || A1.val.empty()) return false;
+    size_t k = 0; while (k < A1.val.size() && A1.val[k] == 0) ++k; if (k == A1.val.size()) return false;
+    Q c = A2.val[k] / A1.val[k]; if (c == 0 || c == 1) return false;
+    for (size_t j = 0; j < A1.val.size(); ++j) if ((A1.val[j] * c).v != A2.val[j].v) return false;
+    return true;
+}
+// symmetric with positive pivots (exact elimination without pivoting)
+static bool is_spd(const Mat &A) {
+    if (!is_symmetric(A)) return false;
+    Dense D = dense(A); long n = A.n;
+    for (long k = 0; k < n; ++k) { if (!(D[k][k] > 0)) return false; for (long i = k + 1; i < n; ++i) { if (D[i][k] == 0) continue; Q l = D[i][k] / D[k][k]; for (long j = k; j < n; ++j) D[i][j] -= l * D[k][j]; } }
+    return true;
+}
+// how the matrix is handed to the solve step; B is the block size of the wrapper
+template <int B, class Solver, class FV, class XV>
+static std::tuple<size_t, Q> call_form(const Solver &solve, long form, const Mat &A2, const FV &F, XV &X) {
+    typedef amgcl::static_matrix<Q, B, B> Blk;
+    std::vector<ptrdiff_t> ptr(A2.ptr), col(A2.col); std::vector<Q> val(A2.val); ptrdiff_t n = A2.n;
+    auto At = std::tie(n, ptr, col, val);
+    if (form == 0) return solve(At, F, X);
+    if (form == 1) {                    // a separately assembled scalar matrix: every row lists its entries backwards
+        for (ptrdiff_t i = 0; i < n; ++i) { std::reverse(col.begin() + ptr[i], col.begin() + ptr[i+1]); std::reverse(val.begin() + ptr[i], val.begin() + ptr[i+1]); }
+        amgcl::backend::crs<Q> Ac(At); return solve(Ac, F, X);
+    }
+    if (form == 2) return solve(amgcl::adapter::block_matrix<Blk>(At), F, X);
+    if (form == 3) { amgcl::backend::crs<Blk> Ab(amgcl::adapter::block_matrix<Blk>(At)); return solve(Ab, F, X); }
+    return solve(F, X);                 // form 4: the two-argument overload (internal, for A2 == A1)
+}
+// kind 0 runs to convergence (<= n iterations in exact arithmetic); the numbers grow with every iteration, so the run is
+// capped at 10 iterations (the generators keep n <= 9 for kind 0; the convergence oracle applies to n <= 10 only)
+static size_t maxiter3(long kind, long n) { return kind == 0 ? (size_t)std::min<long>(n, 10) : 3; }
+template <class SP> static void it_prm3(SP &p, long kind, long n) { p.maxiter = maxiter3(kind, n); p.tol = 0; p.abstol = 0; }
+
+struct Judge3 { const char *refname; bool cg; };
+// the oracles of the solve-time overload; everything is evaluated on the scalar system of A2
+static void judge3(Result &r, const Mat &A1, const Mat &A2, const std::vector<Q> &f, long kind, const Sol &s, const Sol *ref, const Sol *two, const Judge3 &j) {
+    const bool same = same_matrix(A1, A2), scaled = is_scaled(A1, A2);
+    r.tag(same ? "same" : scaled ? "scaled" : same_pattern(A1, A2) ? "same_pattern" : "diff_pattern");
+    auto differential = [&]() {
+        if (ref && !same_sol(s, *ref)) r.fail(std::string("operator()(A, rhs, x): the result differs from ") + j.refname + " for the same solve-time matrix");
+        if (two && !same_sol(s, *two)) r.fail("operator()(A, rhs, x) with A equal to the setup matrix differs from operator()(rhs, x)");
+    };
+    if (s.threw) {
+        r.out = "breakdown"; r.tag("breakdown");
+        if (kind == 0 && j.cg) r.fail("CG with the exact preconditioner threw");
+        differential();
+        return;
+    }
+    size_t maxiter = maxiter3(kind, A2.n);
+    std::vector<Q> rr = dmv(dense(A2), s.x); for (size_t i = 0; i < rr.size(); ++i) rr[i] = f[i] - rr[i];
+    Q truth = nrm(rr) / nrm(f);
+    if (s.res.v != truth.v) {
+        std::vector<Q> r1 = dmv(dense(A1), s.x); for (size_t i = 0; i < r1.size(); ++i) r1[i] = f[i] - r1[i];
+        Q t1 = nrm(r1) / nrm(f);
+        r.fail(std::string("operator()(A, rhs, x): reported residual is not the residual of the returned x in the scalar system of the matrix given at solve time")
+            + (s.res.v == t1.v ? " (it is the residual in the SETUP matrix: the solve-time matrix was ignored)" : ""));
+    }
+    bool zero = true; for (auto &e : rr) if (e != 0) { zero = false; break; }
+    // (the norm of the exact type is rsqrt, resolution 2^-32: a reported 0 means |f - A x| < 2^-32, checked here without rsqrt)
+    if (s.res == 0) { r.tag(zero ? "converged_exactly" : "converged"); Q lim = Q::frac(1, 1L << 32); if (!(dot(rr, rr) < lim * lim)) r.fail("operator()(A, rhs, x): converged solve (reported residual 0) does not satisfy A x = rhs (to 2^-32) for the matrix given at solve time"); }
+    if (s.it > maxiter) r.fail("iters > maxiter");
+    if (kind == 0 && j.cg && A2.n <= 10 && s.res != 0 && is_spd(A1) && is_spd(A2)) r.fail("CG (exact arithmetic, SPD matrix, exact SPD preconditioner of the setup matrix) did not solve the solve-time system within n iterations");
+    if (kind == 0 && scaled && !(s.it == 1 && zero)) r.fail("solve-time matrix c * (setup matrix) under the exact preconditioner: not solved in one iteration");
+    differential();
+    r.out = (Line() << s.it << s.res).get();
+    r.tag("it" + std::to_string(s.it));
+}
+
+template <class It> struct is_cg : std::false_type {};
+template <class Bk, class Ip> struct is_cg<S::cg<Bk, Ip>> : std::true_type {};
+
 template <int B> struct Wrap {
     typedef amgcl::static_matrix<Q, B, B> Blk;
     typedef amgcl::backend::builtin<Blk> BB;
     typedef amgcl::backend::builtin<Q> SB;
     typedef amgcl::backend::builtin_hybrid<Blk> HB;
+    typedef S::detail::default_inner_product DIP;
+
+    // set up for A1 (scalar tuple), solve through operator()(A2, f, x) with A2 in the given form
+    template <class Sv> static Sol solve3(const Mat &A1, const typename Sv::params &p, long form, const Mat &A2, const std::vector<Q> &f) {
+        return guarded(A2.n, [&](NVec &X) {
+            std::vector<ptrdiff_t> ptr(A1.ptr), col(A1.col); std::vector<Q> val(A1.val); ptrdiff_t n = A1.n;
+            Sv solve(std::tie(n, ptr, col, val), p);
+            NVec F = nvec(f);
+            return call_form<B>(solve, form, A2, F, X);
+        });
+    }
+    // reference for kind 0: the same Krylov method on the scalar backend with the exact (one-level) preconditioner of A1
+    template <template <class, class> class It> static Sol ref_scalar_exact(const Mat &A1, const Mat &A2, const std::vector<Q> &f) {
+        typedef amgcl::make_solver<amgcl::amg<SB, C::smoothed_aggregation, R::spai0>, It<SB, DIP>> Rf;
+        typename Rf::params q; amg_prm(q.precond, 0); it_prm3(q.solver, 0, A2.n);
+        return solve3<Rf>(A1, q, 0, A2, f);
+    }
+    // reference for the multilevel case of the block wrappers: the block backend called directly with block-valued
+    // matrix and vectors (what make_block_solver is documented to do)
+    template <class Rf> static Sol ref_block_direct(const Mat &A1, const typename Rf::params &p, const Mat &A2, const std::vector<Q> &f) {
+        return guarded(A2.n, [&](NVec &X) {
+            std::vector<ptrdiff_t> ptr(A1.ptr), col(A1.col); std::vector<Q> val(A1.val); ptrdiff_t n = A1.n;
+            amgcl::backend::crs<Q> As(std::tie(n, ptr, col, val)); amgcl::backend::sort_rows(As);
+            Rf solve(amgcl::adapter::block_matrix<Blk>(As), p);
+            std::vector<ptrdiff_t> ptr2(A2.ptr), col2(A2.col); std::vector<Q> val2(A2.val);
+            amgcl::backend::crs<Blk> Ab(amgcl::adapter::block_matrix<Blk>(std::tie(n, ptr2, col2, val2)));
+            NVec F = nvec(f);
+            auto Fb = amgcl::backend::reinterpret_as_rhs<Blk>(F); auto Xb = amgcl::backend::reinterpret_as_rhs<Blk>(X);
+            return solve(Ab, Fb, Xb);
+        });
+    }
+
+    template <template <class> class Co, template <class> class Re, template <class, class> class It>
+    static void block_solver3(Result &r, const Mat &A1, const Mat &A2, const std::vector<Q> &f, long kind, long form, bool scalar_coarsening = false) {
+        typedef amgcl::make_block_solver<amgcl::amg<BB, Co, Re>, It<BB, DIP>> Sv;
+        typename Sv::params p; amg_prm(p.precond, kind); it_prm3(p.solver, kind, A2.n);
+        if (kind == 1 && scalar_coarsening) p.precond.coarsening.aggr.block_size = B;
+        Sol s = solve3<Sv>(A1, p, form, A2, f), ref, two;
+        if (kind == 0) ref = ref_scalar_exact<It>(A1, A2, f);
+        else {
+            typedef amgcl::make_solver<amgcl::amg<BB, Co, Re>, It<BB, DIP>> Rf;
+            typename Rf::params q; q.precond = p.precond; q.solver = p.solver;
+            ref = ref_block_direct<Rf>(A1, q, A2, f);
+        }
+        bool same = same_matrix(A1, A2); if (same) two = solve3<Sv>(A1, p, 4, A2, f);
+        judge3(r, A1, A2, f, kind, s, &ref, same ? &two : nullptr, Judge3{ kind == 0 ? "the scalar solver with the same (exact) preconditioner" : "the block backend called directly with the same preconditioner", is_cg<It<BB, DIP>>::value });
+    }
+    template <template <class> class Co, template <class> class Re, template <class, class> class It>
+    static void scalar_backend3(Result &r, const Mat &A1, const Mat &A2, const std::vector<Q> &f, long kind, long form) {      // as_block
+        typedef amgcl::make_solver<amgcl::amg<SB, Co, Re>, It<SB, DIP>> Sv;
+        typename Sv::params p; amg_prm(p.precond, kind); it_prm3(p.solver, kind, A2.n);
+        if (kind == 1) p.precond.coarsening.aggr.block_size = B;
+        Sol s = solve3<Sv>(A1, p, form, A2, f), ref, two;
+        // kind 1: no independent scalar formulation of a block smoother; the reference is the same solver with the
+        // solve-time matrix as a plain scalar tuple (the result may not depend on the representation of A2)
+        if (kind == 0) ref = ref_scalar_exact<It>(A1, A2, f); else ref = solve3<Sv>(A1, p, 0, A2, f);
+        bool same = same_matrix(A1, A2); if (same) two = solve3<Sv>(A1, p, 4, A2, f);
+        judge3(r, A1, A2, f, kind, s, (kind == 0 || form != 0) ? &ref : nullptr, same ? &two : nullptr, Judge3{ kind == 0 ? "the scalar solver with the same (exact) preconditioner" : "the same solver given the matrix as a scalar tuple", is_cg<It<SB, DIP>>::value });
+    }
+    template <template <class> class Co, template <class> class Re, template <class, class> class It>
+    static void hybrid3(Result &r, const Mat &A1, const Mat &A2, const std::vector<Q> &f, long kind, long form) {
+        typedef amgcl::make_solver<amgcl::amg<HB, Co, Re>, It<HB, DIP>> Sv;
+        typename Sv::params p; amg_prm(p.precond, kind); it_prm3(p.solver, kind, A2.n);
+        if (kind == 1) p.precond.coarsening.aggr.block_size = B;
+        Sol s = solve3<Sv>(A1, p, form, A2, f), ref, two;
+        if (kind == 0) ref = ref_scalar_exact<It>(A1, A2, f);
+        else {          // the hybrid backend builds the hierarchy on scalar matrices: same AMG on the scalar backend
+            typedef amgcl::make_solver<amgcl::amg<SB, Co, Re>, It<SB, DIP>> Rf;
+            typename Rf::params q; amg_prm(q.precond, kind); q.precond.coarsening.aggr.block_size = B; it_prm3(q.solver, kind, A2.n);
+            ref = solve3<Rf>(A1, q, 0, A2, f);
+        }
+        bool same = same_matrix(A1, A2); if (same) two = solve3<Sv>(A1, p, 4, A2, f);
+        judge3(r, A1, A2, f, kind, s, &ref, same ? &two : nullptr, Judge3{ kind == 0 ? "the scalar solver with the same (exact) preconditioner" : "the scalar backend with the same AMG preconditioner", is_cg<It<HB, DIP>>::value });
+    }
 
     template <template <class> class Co, template <class> class Re, template <class, class> class It>
     static void block_solver(Result &r, const Mat &A, const std::vector<Q> &f, long kind, bool scalar_coarsening = false) {
@@ -126,6 +306,106 @@ template <int B> struct Wrap {
     template <class T> using as_scalar_ag = typename C::as_scalar<C::aggregation>::template type<T>;
 };
 
+// ---------------------------------------------------------------- complex matrices in protocol form
+typedef std::complex<Q> Cq;
+struct CMat { long n = 0; std::vector<ptrdiff_t> ptr, col; std::vector<Cq> val; };
+static CMat read_cmat(Cur &c) {
+    CMat A; A.n = c.nat(); long m = c.nat(); if (A.n <= 0 || m != A.n) throw bad_input("shape");
+    A.ptr.push_back(0);
+    for (long i = 0; i < A.n; ++i) { long k = c.nat(); if (k < 0) throw bad_input("k"); for (long j = 0; j < k; ++j) { long cc = c.nat(); if (cc < 0 || cc >= m) throw bad_input("col"); A.col.push_back(cc); Q re = c.rat(), im = c.rat(); A.val.push_back(Cq(re, im)); } A.ptr.push_back((ptrdiff_t)A.col.size()); }
+    return A;
+}
+// a + bi -> [[a, -b], [b, a]], assembled by hand (duplicates merged, rows sorted)
+static Mat real_equivalent(const CMat &A) {
+    std::vector<std::map<long, Q>> rows(2 * A.n);
+    for (long i = 0; i < A.n; ++i) for (auto j = A.ptr[i]; j < A.ptr[i+1]; ++j) {
+        long cc = A.col[j]; const Q &a = A.val[j].real(), &b = A.val[j].imag();
+        rows[2*i][2*cc] += a; rows[2*i][2*cc+1] -= b; rows[2*i+1][2*cc] += b; rows[2*i+1][2*cc+1] += a;
+    }
+    std::vector<std::vector<std::pair<long,Q>>> rr(2 * A.n);
+    for (long i = 0; i < 2 * A.n; ++i) for (auto &cv : rows[i]) rr[i].push_back({ cv.first, cv.second });
+    return from_rows(2 * A.n, 2 * A.n, rr);
+}
+
+// ---------------------------------------------------------------- floating-point TEST of the solve-time overload
+struct Mixed { size_t it = 0; double res = 0, truth = 0; };
+static std::string sci(double v) { char buf[40]; snprintf(buf, sizeof buf, "%.3e", v); return buf; }
+// (weighted 5-point Laplacian / 3 + kappa(i,j) / 100) (x) C with an SPD b x b coupling matrix C; the weights of the left half
+// of the domain are multiplied by `scale`.  SPD; no entry is representable in single precision.
+static long assemble_mixed(int B, long m, double scale, std::vector<ptrdiff_t> &ptr, std::vector<ptrdiff_t> &col, std::vector<double> &val, std::vector<double> &rhs) {
+    std::vector<std::vector<double>> Cm(B, std::vector<double>(B));
+    for (int a = 0; a < B; ++a) for (int b = 0; b < B; ++b) Cm[a][b] = B == 1 ? 1.1 : (a == b ? 1.1 + 0.1 * a : 0.3 / (1 + std::abs(a - b)));
+    auto g = [&](long i) { return i < m / 2 ? scale : 1.0; };
+    auto w = [&](long i1, long i2) { return (g(i1) + g(i2)) / 6.0; };       // edge weight, symmetric
+    long N = m * m * B; ptr.assign(1, 0); col.clear(); val.clear(); rhs.assign(N, 0.0);
+    for (long j = 0; j < m; ++j) for (long i = 0; i < m; ++i) {
+        long k = j * m + i;
+        double wl = w(i - 1, i), wr = w(i, i + 1), wv = g(i) / 3.0;
+        double kappa = (1.0 + 0.3 * std::sin(0.2 * i) * std::cos(0.15 * j)) * g(i);
+        for (int a = 0; a < B; ++a) {
+            auto put = [&](long kk, double v) { for (int b = 0; b < B; ++b) { col.push_back(kk * B + b); val.push_back(v * Cm[a][b]); } };
+            if (j > 0) put(k - m, -wv);
+            if (i > 0) put(k - 1, -wl);
+            put(k, wl + wr + 2 * wv + 0.01 * kappa);
+            if (i + 1 < m) put(k + 1, -wr);
+            if (j + 1 < m) put(k + m, -wv);
+            ptr.push_back((ptrdiff_t)col.size());
+            rhs[k * B + a] = 1.0 + 0.1 * a + 0.01 * (i - j);
+        }
+    }
+    return N;
+}
+template <class Sv, class Prm> static Mixed mixed_run(const Prm &p, long m, int B, bool updated) {
+    std::vector<ptrdiff_t> ptr, col, ptr2, col2; std::vector<double> val, rhs, val2, rhs2;
+    ptrdiff_t N = assemble_mixed(B, m, 1.0, ptr, col, val, rhs);
+    if (updated) assemble_mixed(B, m, 2.5, ptr2, col2, val2, rhs2); else { ptr2 = ptr; col2 = col; val2 = val; }
+    Sv solve(std::tie(N, ptr, col, val), p);
+    std::vector<double> x(N, 0.0);
+    Mixed q; std::tie(q.it, q.res) = solve(std::tie(N, ptr2, col2, val2), rhs, x);
+    for (double v : x) if (!std::isfinite(v)) { q.truth = std::numeric_limits<double>::infinity(); return q; }     // (GMP traps on non-finite doubles)
+    mpq_class rr2 = 0, ff2 = 0;       // true residual in exact rational arithmetic from the returned doubles
+    for (long i = 0; i < N; ++i) { mpq_class s = 0; for (auto j = ptr2[i]; j < ptr2[i+1]; ++j) s += mpq_class(val2[j]) * mpq_class(x[col2[j]]); mpq_class e = mpq_class(rhs[i]) - s; rr2 += e * e; ff2 += mpq_class(rhs[i]) * mpq_class(rhs[i]); }
+    q.truth = std::sqrt(mpq_class(rr2 / ff2).get_d());
+    return q;
+}
+template <int B> static Mixed mixed3(long wrap, long m, long upd) {
+    namespace bk = amgcl::backend;
+    typedef typename std::conditional<B == 1, float,  amgcl::static_matrix<float,  B, B>>::type fblk;
+    typedef typename std::conditional<B == 1, double, amgcl::static_matrix<double, B, B>>::type dblk;
+    const bool updated = upd > 0;
+    if (wrap == 0) {                     // make_block_solver (make_solver for b = 1)
+        if (upd == 2) {                  // double precision everywhere, updated coefficients
+            typedef amgcl::amg<bk::builtin<dblk>, C::smoothed_aggregation, R::spai0> P; typedef S::cg<bk::builtin<dblk>> K;
+            typedef typename std::conditional<B == 1, amgcl::make_solver<P, K>, amgcl::make_block_solver<P, K>>::type Sv;
+            typename Sv::params p; p.precond.coarse_enough = 50; return mixed_run<Sv>(p, m, B, true);
+        }
+        typedef amgcl::amg<bk::builtin<fblk>, C::smoothed_aggregation, R::spai0> P; typedef S::cg<bk::builtin<dblk>> K;
+        typedef typename std::conditional<B == 1, amgcl::make_solver<P, K>, amgcl::make_block_solver<P, K>>::type Sv;
+        typename Sv::params p; p.precond.coarse_enough = 50; return mixed_run<Sv>(p, m, B, updated);
+    }
+    if (upd == 2) throw bad_input("double-precision updated-matrix test is run through make_block_solver");
+    if (wrap == 1) {                     // scalar backends, block smoother
+        typedef amgcl::amg<bk::builtin<float>, C::smoothed_aggregation, R::as_block<bk::builtin<fblk>, R::spai0>::template type> P;
+        typedef amgcl::make_solver<P, S::cg<bk::builtin<double>>> Sv;
+        typename Sv::params p; p.precond.coarse_enough = 50 * B; p.precond.coarsening.aggr.block_size = B; return mixed_run<Sv>(p, m, B, updated);
+    }
+    if (wrap == 2) {                     // block backends, scalar coarsening
+        typedef amgcl::amg<bk::builtin<fblk>, C::as_scalar<C::smoothed_aggregation>::template type, R::spai0> P;
+        typedef amgcl::make_block_solver<P, S::cg<bk::builtin<dblk>>> Sv;
+        typename Sv::params p; p.precond.coarse_enough = 50; p.precond.coarsening.aggr.block_size = B; return mixed_run<Sv>(p, m, B, updated);
+    }
+    typedef amgcl::amg<bk::builtin_hybrid<fblk>, C::smoothed_aggregation, R::spai0> P;      // hybrid preconditioner, scalar double solver
+    typedef amgcl::make_solver<P, S::cg<bk::builtin<double>>> Sv;
+    typename Sv::params p; p.precond.coarse_enough = 50 * B; p.precond.coarsening.aggr.block_size = B; return mixed_run<Sv>(p, m, B, updated);
+}
+template <> Mixed mixed3<1>(long wrap, long m, long upd) {
+    namespace bk = amgcl::backend;
+    if (wrap != 0) throw bad_input("b = 1 is the plain make_solver");
+    if (upd == 2) { typedef amgcl::make_solver<amgcl::amg<bk::builtin<double>, C::smoothed_aggregation, R::spai0>, S::cg<bk::builtin<double>>> Sv; Sv::params p; p.precond.coarse_enough = 50; return mixed_run<Sv>(p, m, 1, true); }
+    typedef amgcl::make_solver<amgcl::amg<bk::builtin<float>, C::smoothed_aggregation, R::spai0>, S::cg<bk::builtin<double>>> Sv;
+    Sv::params p; p.precond.coarse_enough = 50; return mixed_run<Sv>(p, m, 1, upd > 0);
+}
+
 static Result execute(const Toks &t) {
     Cur c(t); const std::string &op = t[0]; Result r;
     if (op == "s_block") {
@@ -154,6 +434,32 @@ static Result execute(const Toks &t) {
         r.tag(std::string(wn[wrap]) + std::to_string(b)); r.tag(kind ? "iterative" : "exact");
         { std::set<std::pair<long,long>> blocks; for (long i = 0; i < A.n; ++i) for (auto j = A.ptr[i]; j < A.ptr[i+1]; ++j) blocks.insert({ i / b, (long)A.col[j] / b }); if (blocks.size() * b * b != A.col.size()) r.tag("incomplete"); }
         r.nontrivial = A.n > b;
+    } else if (op == "s_block3") {
+        long kind = c.nat(), b = c.nat(), wrap = c.nat(), form = c.nat(); Mat A1 = checked(c), A2 = checked(c); auto f = c.vec(); c.expect_end();
+        if (kind < 0 || kind > 1 || b < 2 || b > 4 || wrap < 0 || wrap > 3 || form < 0 || form > 3 || A1.n != A1.m || A2.n != A2.m || A2.n != A1.n || A1.n % b || (long)f.size() != A1.n || A1.n == 0) throw bad_input("shape");
+        if (!crs_sorted_nodup(*A1.crs()) || !crs_sorted_nodup(*A2.crs())) throw bad_input("block wrappers take row-sorted matrices");
+        if (dot(f, f) == 0) throw bad_input("zero rhs");
+        if (wrap == 0) {
+            if (b == 2) Wrap<2>::block_solver3<C::smoothed_aggregation, R::ilu0, S::bicgstab>(r, A1, A2, f, kind, form);
+            else if (b == 3) Wrap<3>::block_solver3<C::aggregation, R::spai0, S::cg>(r, A1, A2, f, kind, form);
+            else Wrap<4>::block_solver3<C::smoothed_aggregation, R::damped_jacobi, S::cg>(r, A1, A2, f, kind, form);
+        } else if (wrap == 1) {
+            if (b == 2) Wrap<2>::scalar_backend3<C::smoothed_aggregation, Wrap<2>::as_block_ilu0, S::bicgstab>(r, A1, A2, f, kind, form);
+            else if (b == 3) Wrap<3>::scalar_backend3<C::aggregation, Wrap<3>::as_block_spai0, S::cg>(r, A1, A2, f, kind, form);
+            else throw bad_input("as_block is run for b = 2, 3");
+        } else if (wrap == 2) {
+            if (b == 2) Wrap<2>::block_solver3<Wrap<2>::as_scalar_sa, R::spai0, S::cg>(r, A1, A2, f, kind, form, true);
+            else if (b == 4) Wrap<4>::block_solver3<Wrap<4>::as_scalar_ag, R::ilu0, S::bicgstab>(r, A1, A2, f, kind, form, true);
+            else throw bad_input("as_scalar is run for b = 2, 4");
+        } else {
+            if (b == 2) Wrap<2>::hybrid3<C::smoothed_aggregation, R::spai0, S::cg>(r, A1, A2, f, kind, form);
+            else if (b == 3) Wrap<3>::hybrid3<C::aggregation, R::ilu0, S::bicgstab>(r, A1, A2, f, kind, form);
+            else throw bad_input("hybrid is run for b = 2, 3");
+        }
+        static const char *wn[] = { "make_block_solver", "as_block", "as_scalar", "hybrid" };
+        static const char *fn[] = { "A:tuple", "A:crs", "A:block_adapter", "A:block_crs" };
+        r.tag(std::string(wn[wrap]) + std::to_string(b) + "/3arg"); r.tag(kind ? "iterative" : "exact_precond"); r.tag(fn[form]);
+        r.nontrivial = A1.n > b;
     } else if (op == "s_complex") {
         typedef std::complex<Q> Cq;
         long kind = c.nat(); long n = c.nat(), m = c.nat(); if (kind < 0 || kind > 1 || n <= 0 || m != n) throw bad_input("shape");
@@ -185,6 +491,42 @@ static Result execute(const Toks &t) {
             else { Q truth = nrm(rr) / nrm(ww); if (res.v != truth.v) r.fail("reported residual of the real-equivalent solve is not the residual of z in the complex system"); r.out = (Line() << it << res).get(); }
         } catch (const std::runtime_error &e) { r.out = "breakdown"; r.tag("breakdown"); if (kind == 0) r.fail(std::string("exact solve threw: ") + e.what()); }
         r.tag("complex"); r.tag(kind ? "iterative" : "exact"); r.nontrivial = n > 1;
+    } else if (op == "s_complex3") {
+        long kind = c.nat(); if (kind < 0 || kind > 1) throw bad_input("kind");
+        CMat A1 = read_cmat(c), A2 = read_cmat(c); long n = A1.n; if (A2.n != n) throw bad_input("shape");
+        long wn = c.nat(); if (wn != n) throw bad_input("w"); std::vector<Cq> w(n); for (auto &e : w) { Q re = c.rat(), im = c.rat(); e = Cq(re, im); }
+        c.expect_end();
+        { Q s(0); for (auto &e : w) s += e.real() * e.real() + e.imag() * e.imag(); if (s == 0) throw bad_input("zero rhs"); }
+        typedef amgcl::backend::builtin<Q> SB;
+        typedef amgcl::make_solver<amgcl::amg<SB, C::smoothed_aggregation, R::ilu0>, S::bicgstab<SB>> Sv;
+        Sv::params p; amg_prm(p.precond, kind); it_prm3(p.solver, kind, 2 * n);
+        Mat R1 = real_equivalent(A1), R2 = real_equivalent(A2);
+        std::vector<Q> ww(2 * n); for (long i = 0; i < n; ++i) { ww[2*i] = w[i].real(); ww[2*i+1] = w[i].imag(); }
+        // through the adapter: setup complex_matrix(A1), solve(complex_matrix(A2), complex_range(w), complex_range(z))
+        Sol s; std::vector<Cq> z(n, Cq(Q(0), Q(0)));
+        try {
+            ptrdiff_t nn = n; Sv solve(amgcl::adapter::complex_matrix(std::tie(nn, A1.ptr, A1.col, A1.val)), p);
+            auto wr = amgcl::adapter::complex_range(w); auto zr = amgcl::adapter::complex_range(z);
+            std::tie(s.it, s.res) = solve(amgcl::adapter::complex_matrix(std::tie(nn, A2.ptr, A2.col, A2.val)), wr, zr);
+            s.x.resize(2 * n); for (long i = 0; i < n; ++i) { s.x[2*i] = z[i].real(); s.x[2*i+1] = z[i].imag(); }
+        } catch (const std::runtime_error &e) { s.threw = true; }
+        // the scalar solver on the hand-assembled real-equivalent matrices [[a,-b],[b,a]]
+        Sol ref = Wrap<2>::solve3<Sv>(R1, p, 0, R2, ww);
+        bool same = same_matrix(R1, R2); Sol two;
+        if (same) two = Wrap<2>::solve3<Sv>(R1, p, 4, R2, ww);
+        judge3(r, R1, R2, ww, kind, s, &ref, same ? &two : nullptr, Judge3{ "the scalar solver on the hand-assembled real-equivalent system", false });
+        r.tag("complex/3arg"); r.tag(kind ? "iterative" : "exact_precond"); r.nontrivial = n > 1;
+    } else if (op == "t_mixed3") {
+        long b = c.nat(), wrap = c.nat(), m = c.nat(), upd = c.nat(); c.expect_end();
+        if (b < 1 || b > 4 || wrap < 0 || wrap > 3 || m < 4 || m > 64 || upd < 0 || upd > 2 || (b == 1 && wrap != 0)) throw bad_input("shape");
+        Mixed q;
+        if (b == 1) q = mixed3<1>(wrap, m, upd); else if (b == 2) q = mixed3<2>(wrap, m, upd); else if (b == 3) q = mixed3<3>(wrap, m, upd); else q = mixed3<4>(wrap, m, upd);
+        if (!(q.res < 1e-8)) r.fail("mixed precision / updated matrix, operator()(A, rhs, x): reported residual does not reach 1e-8");
+        if (!(q.truth <= 1e-8 * 1.01)) r.fail("mixed precision / updated matrix, operator()(A, rhs, x): TRUE residual " + sci(q.truth) + " of the double scalar system given at solve time does not reach 1e-8 (reported " + sci(q.res) + ")");
+        if (q.it >= 100) r.fail("mixed precision / updated matrix: maxiter reached");
+        r.out = (Line() << "mixed3" << (long)q.it << (q.truth <= 1e-8 * 1.01 ? "true<=1e-8" : "true>1e-8")).get();
+        static const char *wn[] = { "make_block_solver", "as_block", "as_scalar", "hybrid" };
+        r.tag("mixed_test"); r.tag(std::string(b == 1 ? "make_solver" : wn[wrap]) + std::to_string(b) + (upd ? "/updated" : "/float_precond")); r.nontrivial = true;
     } else if (op == "t_mixed") {
         long dim = c.nat(), n = c.nat(); c.expect_end(); if (dim < 2 || dim > 3 || n < 2 || n > 80) throw bad_input("shape");
         long N = dim == 2 ? n * n : n * n * n;
@@ -207,9 +549,9 @@ static Result execute(const Toks &t) {
         ptrdiff_t nn = N; Sv solve(std::tie(nn, ptr, col, val), p);
         size_t it; double res; std::tie(it, res) = solve(f, x);
         // true residual in exact rational arithmetic from the returned doubles
-        mpq_class rr2 = 0, ff2 = 0;
-        for (long i = 0; i < N; ++i) { mpq_class s = 0; for (auto j = ptr[i]; j < ptr[i+1]; ++j) s += mpq_class(val[j]) * mpq_class(x[col[j]]); mpq_class e = mpq_class(f[i]) - s; rr2 += e * e; ff2 += mpq_class(f[i]) * mpq_class(f[i]); }
-        double truth = std::sqrt(mpq_class(rr2 / ff2).get_d());
+        mpq_class rr2 = 0, ff2 = 0; bool finite = true; for (double v : x) if (!std::isfinite(v)) finite = false;      // (GMP traps on non-finite doubles)
+        if (finite) for (long i = 0; i < N; ++i) { mpq_class s = 0; for (auto j = ptr[i]; j < ptr[i+1]; ++j) s += mpq_class(val[j]) * mpq_class(x[col[j]]); mpq_class e = mpq_class(f[i]) - s; rr2 += e * e; ff2 += mpq_class(f[i]) * mpq_class(f[i]); }
+        double truth = finite ? std::sqrt(mpq_class(rr2 / ff2).get_d()) : std::numeric_limits<double>::infinity();
         if (!(res < 1e-8)) r.fail("mixed precision: reported residual does not reach 1e-8");
         if (!(truth <= 1e-8 * 1.01)) r.fail("mixed precision: TRUE residual " + std::to_string(truth) + " does not reach 1e-8");
         if (it >= 100) r.fail("mixed precision: maxiter reached");
@@ -230,11 +572,70 @@ static void put_block_case(Rng &rng, const Opts &o, std::vector<std::string> &li
     lines.push_back((Line() << "s_block" << kind << b << wrap << A << f).get());
 }
 
+// the matrix handed to the solve step, derived from the setup matrix A1 (sorted rows, full diagonal):
+//   fam 0 the same matrix (assembled again)   1 c * A1   2 diagonal shift (same pattern)   3 perturbed coefficients (same
+//   pattern)   4 different pattern: extra couplings / another matrix of the same family and size.  SPD stays SPD,
+//   strictly diagonally dominant stays strictly diagonally dominant.
+static Mat solve_time_matrix(Rng &rng, const Mat &A1, long b, int fam, bool spd) {
+    auto rows = to_rows(A1); long n = A1.n;
+    auto at = [&](long i, long j) -> Q* { for (auto &cv : rows[i]) if (cv.first == j) return &cv.second; return nullptr; };
+    auto add = [&](long i, long j, const Q &v) { if (Q *e = at(i, j)) *e += v; else { rows[i].push_back({ j, v }); std::sort(rows[i].begin(), rows[i].end(), [](const std::pair<long,Q> &x, const std::pair<long,Q> &y) { return x.first < y.first; }); } };
+    if (fam == 1) { static const std::vector<Q> cs = { Q(2), Q(3), Q::frac(1, 2), Q::frac(3, 2), Q::frac(2, 3) }; Q c = rng.pick(cs); for (auto &r : rows) for (auto &cv : r) cv.second *= c; }
+    else if (fam == 2) { bool any = false; for (long i = 0; i < n; ++i) if (rng.coin(1, 3) || (i == n - 1 && !any)) { add(i, i, Q::frac(rng.range(1, 6), 2)); any = true; } }
+    else if (fam == 3 || fam == 4) {
+        long cnt = rng.range(1, 3);
+        for (long q = 0; q < cnt; ++q) {
+            // fam 3: an existing off-diagonal coupling, fam 4: a coupling that is not stored (if there is one)
+            std::vector<std::pair<long,long>> cand;
+            for (long i = 0; i < n; ++i) for (long j = 0; j < n; ++j) if (i != j && (!spd || i < j) && ((at(i, j) != nullptr) == (fam == 3))) cand.push_back({ i, j });
+            if (cand.empty()) break;
+            auto ij = cand[rng.next() % cand.size()]; long i = ij.first, j = ij.second;
+            Q t = Q::frac(rng.range(1, 4), 4);
+            if (spd) { add(i, j, -t); add(j, i, -t); add(i, i, t); add(j, j, t); }          // + t (e_i - e_j)(e_i - e_j)^T
+            else { add(i, j, rng.coin() ? t : -t); add(i, i, t); }
+        }
+    }
+    (void)b;
+    return from_rows(n, n, rows);
+}
+static void put_block3_case(Rng &rng, const Opts &o, std::vector<std::string> &lines, long kind, long b, long wrap, int fam, long form) {
+    // kind 0 runs the Krylov method to convergence at exact rationals: keep n small
+    long nb = kind == 0 ? rng.range(2, b == 4 ? 2 : 3) : rng.range(2, o.thorough() ? 6 : 4);
+    bool spd = (wrap == 0 && b >= 3) || (wrap == 1 && b == 3) || (wrap == 2 && b == 2) || (wrap == 3 && b == 2) || rng.coin(1, 3);   // CG combos
+    auto gen = [&](long nbb, int kind_spd) { return spd ? kron(gen_spd(rng, nbb, kind_spd), spd_block(rng, b, rng.coin(1, 3)))
+                                        : gen_block_structured(rng, nbb, nbb, b, (int)rng.range(20, 60), rng.coin() ? 100 : (int)rng.range(20, 80), false, true); };
+    Mat A1 = gen(nb, kind == 0 ? (int)(2 * rng.range(0, 1)) : -1), A2;
+    if (fam == 5) { A2 = gen(A1.n / b, (int)(2 * rng.range(0, 1))); if (A2.n != A1.n) A2 = solve_time_matrix(rng, A1, b, 4, spd); }   // another matrix of the family
+    else A2 = solve_time_matrix(rng, A1, b, fam, spd);
+    std::vector<Q> f = gen_vec(rng, A1.n); if (dot(f, f) == 0) f[0] = Q(1);
+    lines.push_back((Line() << "s_block3" << kind << b << wrap << form << A1 << A2 << f).get());
+}
+static void put_cmat(Line &l, const Mat &Sm, const std::map<std::pair<long,long>, Q> &K, const Q &sigma, bool shifted) {
+    long n = Sm.n; l << n << n;
+    for (long i = 0; i < n; ++i) { l << (long)(Sm.ptr[i+1] - Sm.ptr[i]); for (auto j = Sm.ptr[i]; j < Sm.ptr[i+1]; ++j) { long cc = Sm.col[j]; l << cc; auto it = K.find({ i, cc }); Q im = shifted ? (cc == i ? sigma : Q(0)) : (cc == i || it == K.end() ? Q(0) : it->second); put_cx(l, Sm.val[j], im); } }
+}
+
 static void generate(Rng &rng, const Opts &o, std::vector<std::string> &lines) {
     long rounds = o.cases > 0 ? o.cases : (o.thorough() ? 60 : 8);
     static const long combos[][2] = { {2,0},{3,0},{4,0},{2,1},{3,1},{2,2},{4,2},{2,3},{3,3} };
     for (long k = 0; k < rounds; ++k) {
         for (auto &cb : combos) for (long kind = 0; kind < 2; ++kind) put_block_case(rng, o, lines, kind, cb[0], cb[1]);
+        // the solve-time-matrix overload: every wrapper, every family of A2 and every representation within 6 resp. 4 rounds
+        { long ci = 0; for (auto &cb : combos) { for (long kind = 0; kind < 2; ++kind) put_block3_case(rng, o, lines, kind, cb[0], cb[1], (int)((k + ci + 3 * kind) % 6), (k + ci / 2 + kind) % 4); ++ci; } }
+        for (long kind = 0; kind < 2; ++kind) for (int rep = 0; rep < 2; ++rep) {         // complex adapter, solve-time overload
+            long n = rng.range(2, o.thorough() && kind == 1 ? 7 : 4);      // kind 0 runs up to 2n exact BiCGStab iterations
+            Mat Sm = gen_spd(rng, n, 2 * (int)rng.range(0, 1)); n = Sm.n;
+            int fam = (int)((k + kind + 2 * rep) % 5);
+            Mat S2 = fam == 4 ? gen_spd(rng, n, 2) : solve_time_matrix(rng, Sm, 1, fam, true); if (S2.n != n) S2 = solve_time_matrix(rng, Sm, 1, 4, true);
+            std::map<std::pair<long,long>, Q> K1, K2;
+            for (int which = 0; which < 2; ++which) { const Mat &M = which ? S2 : Sm; auto &K = which ? K2 : K1;
+                for (long i = 0; i < n; ++i) for (auto j = M.ptr[i]; j < M.ptr[i+1]; ++j) { long cc = M.col[j]; if (cc > i) { Q v = which && K1.count({ i, cc }) && fam != 3 ? K1[{ i, cc }] : Q::frac(rng.range(-1, 1), 4); K[{ i, cc }] = v; K[{ cc, i }] = -v; } } }
+            if (fam == 1) for (auto &kv : K2) kv.second *= S2.val[0] / Sm.val[0];     // the whole complex matrix is scaled
+            bool shifted = rng.coin(); Q sigma = Q::frac(rng.range(1, 3), 2), sigma2 = fam == 0 ? sigma : fam == 1 ? sigma * (S2.val[0] / Sm.val[0]) : Q::frac(rng.range(1, 5), 2);
+            Line l; l << "s_complex3" << kind; put_cmat(l, Sm, K1, sigma, shifted); put_cmat(l, S2, K2, sigma2, shifted);
+            l << n; for (long i = 0; i < n; ++i) put_cx(l, rng.rat_nz(), rng.rat());
+            lines.push_back(l.get());
+        }
         for (long kind = 0; kind < 2; ++kind) for (int rep = 0; rep < 2; ++rep) {       // complex: Hermitian positive definite and shifted
             long n = rng.range(2, o.thorough() ? 9 : 6);
             Mat Sm = gen_spd(rng, n, -1); n = Sm.n;
@@ -254,7 +655,18 @@ static void generate(Rng &rng, const Opts &o, std::vector<std::string> &lines) {
     for (long n : { 8L, 16L }) lines.push_back((Line() << "t_mixed" << 3L << n).get());
     lines.push_back((Line() << "t_mixed" << 2L << rng.range(10, o.thorough() ? 48 : 24)).get());
     lines.push_back((Line() << "t_mixed" << 3L << rng.range(5, o.thorough() ? 14 : 9)).get());
+    // the solve-time overload in floating point: float (block) preconditioner under a double (block) solver on entries that
+    // are not representable in float, and updated coefficients; every wrapper and block size
+    {
+        static const long mc[][2] = { {1,0},{2,0},{3,0},{4,0},{2,1},{3,1},{2,2},{4,2},{2,3},{3,3} };
+        for (auto &c : mc) lines.push_back((Line() << "t_mixed3" << c[0] << c[1] << rng.range(12, o.thorough() ? 40 : 24) << 0L).get());
+        for (auto &c : mc) if (o.thorough() || rng.coin(1, 2)) lines.push_back((Line() << "t_mixed3" << c[0] << c[1] << rng.range(12, o.thorough() ? 40 : 24) << 1L).get());
+        for (long b = 1; b <= 4; ++b) lines.push_back((Line() << "t_mixed3" << b << 0L << rng.range(12, o.thorough() ? 40 : 24) << 2L).get());
+    }
     lines.push_back("s_block 0 2 0 3 3 1 0 1 1 1 1 1 2 1 3 1 1 1");        // size not divisible by the block size
+    lines.push_back("s_block3 1 2 0 0 2 2 1 0 1 1 1 1 4 4 1 0 1 1 1 1 1 2 1 1 3 1 2 1 1");     // setup and solve-time matrices of different size
+    lines.push_back("s_block3 1 2 0 7 2 2 1 0 1 1 1 1 2 2 1 0 1 1 1 1 2 1 1");                 // unknown matrix form
+    lines.push_back("t_mixed3 1 2 16 0");                                                      // b = 1 has no block wrapper
     lines.push_back("s_block 0 5 0 0 0 0");                                  // block size out of range
 }
 
